@@ -1002,6 +1002,10 @@ void ReaderMgr::reset()
     fThrowEOE = false;
     fXMLVersion = XMLReader::XMLV1_0;
 
+    // Reader numbers start over with every parse (the scanners take 1 for
+    // the number of the document entity's reader)
+    fNextReaderNum = 1;
+
     // Delete the current reader and flush the reader stack
     delete fCurReaderData;
     fCurReaderData = 0;
